@@ -6,8 +6,10 @@ package main
 // VerifyNODATAForZoneWithWork run on a fixed three-name NSEC3 ring through the resolver's own work
 // adapter (Resolver.dnssecWork), on the ledger and context of the current `ledger new` case.
 //
-//	n3 nx <apex|host> <labels|-> <memo t|f>      name error for <labels>.<base>
-//	n3 nodata <apex|host> <labels|-> <memo t|f>  NODATA (type TXT) for <labels>.<base>
+//	n3 nx <apex|host> <labels|-> <memo t|f> [iterations]      name error for <labels>.<base>
+//	n3 nodata <apex|host> <labels|-> <memo t|f> [iterations]  NODATA (type TXT) for <labels>.<base>
+//
+// iterations (default 0): the NSEC3 iteration count every record of the ring advertises.
 //
 // With memo=t the context carries the request tree's hash memo (dnssec.EnsureNSEC3HashMemo), as every
 // production entry point arranges; with memo=f it does not (a bare context).
@@ -29,16 +31,18 @@ import (
 const n3Zone = "n3.test."
 
 var (
-	n3FixRing    []dns.RR
+	n3FixRings   = map[int][]dns.RR{}
 	curMemoCtx   context.Context
 	curMemoOwner context.Context
 )
 
 // the ring of n3.test.: apex, host, other (unsigned: the verifiers take an already authenticated set)
-func n3Fixture() []dns.RR {
-	if n3FixRing != nil {
-		return n3FixRing
+func n3Fixture(iters int) []dns.RR {
+	if r, ok := n3FixRings[iters]; ok {
+		return r
 	}
+	var n3FixRing []dns.RR
+	n3Iters := uint16(iters)
 	type ent struct {
 		hash  string
 		types []uint16
@@ -56,6 +60,7 @@ func n3Fixture() []dns.RR {
 			HashLength: 20, NextDomain: es[(i+1)%len(es)].hash, TypeBitMap: e.types,
 		})
 	}
+	n3FixRings[iters] = n3FixRing
 	return n3FixRing
 }
 
@@ -93,6 +98,13 @@ func n3Verify(f []string) vlib.Res {
 	if dnssec.VerifC12MaxNSEC3HashMemoEntries() != 64 {
 		return vlib.Res{Impl: "stale-constants", Oracle: "-"} // the model's memo ceiling (Props: nsec3_memo_cap_fact)
 	}
+	iters := 0
+	if len(f) > 5 {
+		iters = vlib.Atoi(f[5])
+		if iters < 0 || iters > 65535 || dnssec.VerifC12MaxNSEC3Iterations() != 150 {
+			return vlib.Res{Impl: "stale-constants", Oracle: "-"} // the model's iteration ceiling (Props: nsec3_iteration_cap_fact)
+		}
+	}
 	base := n3Zone
 	if f[2] == "host" {
 		base = "host." + n3Zone
@@ -119,10 +131,10 @@ func n3Verify(f []string) vlib.Res {
 	if f[1] == "nx" {
 		msg.SetQuestion(name, dns.TypeA)
 		msg.Rcode = dns.RcodeNameError
-		secure, err = dnssec.VerifyNameErrorForZoneWithWork(msg, n3Fixture(), n3Zone, cw)
+		secure, err = dnssec.VerifyNameErrorForZoneWithWork(msg, n3Fixture(iters), n3Zone, cw)
 	} else {
 		msg.SetQuestion(name, dns.TypeTXT)
-		secure, err = dnssec.VerifyNODATAForZoneWithWork(msg, n3Fixture(), n3Zone, cw)
+		secure, err = dnssec.VerifyNODATAForZoneWithWork(msg, n3Fixture(iters), n3Zone, cw)
 	}
 	res := "bogus"
 	var le *middleware.RecursionWorkLimitError
@@ -160,7 +172,12 @@ func n3Verify(f []string) vlib.Res {
 		if need > 1 {
 			need++ // the wildcard at the closest encloser
 		}
+		if iters > 150 {
+			need = 0 // a ring above the iteration ceiling is unusable: no hash may be spent on it
+		}
 		switch {
+		case iters > 150 && (cw.admitted+cw.refused > 0 || res != "bogus"):
+			or = fmt.Sprintf("FAIL sig=n3/%s/hash-work-for-ring-above-iteration-cap iterations=%d hash-requests=%d verdict=%s", f[1], iters, cw.admitted+cw.refused, res)
 		case refAccept[kind] > curCfgCaps[kind]:
 			or = fmt.Sprintf("FAIL sig=n3/%s/hashes-past-budget accepted=%d budget=%d", f[1], refAccept[kind], curCfgCaps[kind])
 		case cw.refused > 0 && refAccept[kind] < curCfgCaps[kind]:
@@ -176,8 +193,13 @@ func n3Verify(f []string) vlib.Res {
 		}
 	} else if le != nil {
 		or = fmt.Sprintf("FAIL sig=n3/%s/%s-mode-rejected", f[1], modeName(curPolicy.Mode))
+	} else if iters > 150 && (cw.admitted+cw.refused > 0 || res != "bogus") {
+		or = fmt.Sprintf("FAIL sig=n3/%s/hash-work-for-ring-above-iteration-cap iterations=%d hash-requests=%d verdict=%s", f[1], iters, cw.admitted+cw.refused, res)
 	}
 	tags := "n3"
+	if len(f) > 5 {
+		tags += fmt.Sprintf(",n3iter=%d", iters)
+	}
 	if curPolicy.Mode == middleware.RecursionWorkEnforce && refAccept[kind]+3 >= curCfgCaps[kind] {
 		tags += ",nt"
 	}
